@@ -623,7 +623,9 @@ var goVariants = []goVariant{
 		src = strings.ReplaceAll(src, "return 1", "return nil")
 		setGo(c, src+"\nvar _ strings.Builder\n")
 	}},
-	{"go:package-main", func(c *cliCase, pkg string) { setGo(c, strings.Replace(goOf(c), "package "+pkg, "package main", 1)) }},
+	{"go:package-main", func(c *cliCase, pkg string) {
+		setGo(c, strings.Replace(goOf(c), "package "+pkg, "package main", 1)+"\nfunc main() {}\n")
+	}},
 	{"go:package-underscore", func(c *cliCase, pkg string) { setGo(c, strings.Replace(goOf(c), "package "+pkg, "package _", 1)) }},
 	{"go:two-package-names", func(c *cliCase, pkg string) { c.put("q.go", []byte("package otherpkg\n")) }},
 	{"go:second-file-ignored-by-tag", func(c *cliCase, pkg string) { c.put("q.go", []byte("//go:build ignore\n\npackage otherpkg\n")) }},
@@ -717,7 +719,7 @@ func runCLIJobs(bin string, jobs []*cliJob, par int, t1, t2 time.Duration) {
 	}
 }
 
-var buildErrRe = regexp.MustCompile(`(?m)^(?:# verifgen/|\./)?(c\d{5})[/\s:]`)
+var buildErrRe = regexp.MustCompile(`(?m)^(?:# verifgen/|\./)?(c\d{5})(?:[/\s:]|$)`)
 
 // compileBatch builds the packages of all exit-0 jobs and attributes failures.
 func compileBatch(root string, jobs []*cliJob) map[string]string {
@@ -1025,8 +1027,14 @@ func init() {
 			if j.c.ID != "" {
 				label = "witness " + j.c.ID
 			}
-			line := fmt.Sprintf("# cli %d %s", j.idx, label)
-			c.EmitO(line, line+" => "+outcome, oracle)
+			line := fmt.Sprintf("# cli %d %s => %s", j.idx, label, outcome)
+			line = strings.Map(func(r rune) rune {
+				if r == '\n' || r == '\r' {
+					return ' '
+				}
+				return r
+			}, line)
+			c.EmitO(line, line, oracle)
 			// distribution
 			kind := j.c.Kind
 			if i := strings.Index(kind, ":"); i > 0 && !strings.HasPrefix(kind, "go:") && !strings.HasPrefix(kind, "whole:") && !strings.HasPrefix(kind, "args:") {
